@@ -524,7 +524,26 @@ def obs_C16_pair(gA, gB, kind, out):
     out["scnames"] = sorted(sc)
 
 
-P.OBS_PAIR = {"C16": obs_C16_pair}
+def obs_C13_pair(gA, gB, kind, out):
+    """A: generated serially, B: with worker processes - every numeric variable of the two files, value for value"""
+    out["kind"] = kind
+    va, vb = gA.ds.variables, gB.ds.variables
+    diff, missing, n = [], [], 0
+    for name in va:
+        if getattr(va[name].dtype, "kind", "S") not in "fiu":
+            continue
+        n += 1
+        if name not in vb:
+            missing.append(name)
+            continue
+        a, b = np.array(va[name][...], dtype=float), np.array(vb[name][...], dtype=float)
+        if a.shape != b.shape or not np.array_equal(a, b, equal_nan=True):
+            diff.append(name)
+    out["nvars"], out["ndiff"], out["nmissing"] = n, len(diff), len(missing)
+    out["differing"] = sorted(diff)[:20]
+
+
+P.OBS_PAIR = {"C16": obs_C16_pair, "C13": obs_C13_pair}
 
 
 def obs_C09(g, out):
@@ -634,6 +653,8 @@ def input_wall(cfg):
     w = E.default_wall(slanted=("many" if cfg.get("wall") == "many" else cfg.get("wall") == "slanted"), mirror=cfg.get("mirror", False))
     if cfg.get("wall") == "limiter":
         w = E.limiter_wall()
+    if cfg.get("wall") == "baffle":
+        w = E.baffle_wall()
     if cfg.get("wall_clockwise"):
         w = w[::-1]
     k = int(cfg.get("wall_start", 0))      # the polygon may start at any of its vertices ...
